@@ -467,8 +467,8 @@ fn eval_cli_bin(c: &TCase, bin: &'static str) -> CaseOutcome {
         Status::Signal(s) => return CaseOutcome::Fail { key: format!("c15|cli|signal-{}", s), what: format!("killed by signal {} {}", s, out.err_str().lines().last().unwrap_or("")), replay },
         Status::Blocked => return CaseOutcome::Fail { key: "c15|cli|blocked".into(), what: "the emulator went to sleep without using CPU time although its input was complete (it waits for something that cannot come)".into(), replay },
         Status::Exit(code) => {
-            let utf8 = std::str::from_utf8(&bytes).is_ok();
-            let ok = *code == 0 || (*code == 1 && !utf8 && out.out_str().contains("Error Reading file"));
+            // status 0, or a status the emulator chose itself (1 after "Error Reading file" for a file that is not UTF-8)
+            let ok = own_exit(*code);
             if out.panicked() || !ok {
                 let msg = out.err_str().lines().find(|l| l.contains("panicked at")).map(|l| l.to_string()).unwrap_or_default();
                 let detail = out.err_str().lines().skip_while(|l| !l.contains("panicked at")).nth(1).unwrap_or("").to_string();
@@ -614,7 +614,7 @@ fn run_families(ctx: &Ctx) {
             for _rep in 0..ctx.tier.pick(1, 3) {
                 let (out, ru) = run_cli_rusage(src.as_bytes(), 64 << 20, 300_000);
                 match &out.status {
-                    Status::Exit(0) if !out.panicked() => {}
+                    Status::Exit(c) if own_exit(*c) && !out.panicked() => {}
                     Status::Timeout | Status::SpawnError(_) => {
                         ctx.inconclusive(&format!("family {} n={}: {:?}", fam, n, out.status));
                         bad = Some("inconclusive".into());
@@ -827,10 +827,8 @@ pub fn replay(v: &Value) -> Result<String, String> {
             }
             let out = run_bin_limited(bin, &bytes, Stdin::Closed, false, 8 << 20, 90_000, DEFAULT_LIMITS);
             let rep = format!("file ({} bytes): {:?}\nstatus {:?}\nstdout: {}\nstderr: {}", bytes.len(), String::from_utf8_lossy(&bytes), out.status, out.out_str().chars().take(400).collect::<String>(), out.err_str());
-            let utf8 = std::str::from_utf8(&bytes).is_ok();
             let ok = match out.status {
-                Status::Exit(0) => !out.panicked(),
-                Status::Exit(1) => !utf8 && !out.panicked(),
+                Status::Exit(c) => own_exit(c) && !out.panicked(),
                 _ => false,
             };
             if ok {
